@@ -1,7 +1,8 @@
 """C14 — file/stream reads complete regardless of delivery; directory/unlink/dirname/basename; scoped_fd; Poll."""
 from ..props_common import ASSUME_COMMON
 
-_WRAP = ["-Wl,--wrap=read", "-Wl,--wrap=pread", "-Wl,--wrap=pread64", "-Wl,--wrap=close"]
+_WRAP = ["-Wl,--wrap=read", "-Wl,--wrap=pread", "-Wl,--wrap=pread64", "-Wl,--wrap=close",
+         "-Wl,--wrap=write", "-Wl,--wrap=pwrite", "-Wl,--wrap=pwrite64", "-Wl,--wrap=writev"]
 
 SPEC = {
     "level": "fault_enumeration",
@@ -25,7 +26,15 @@ SPEC = {
             "4 sizes x 5 cyclic plans x {file,pipe}. Concurrency: 160/2400 rounds (asan) of 4-8 threads released by a barrier, each "
             "calling read_all(fd) / read_all(fdopen) / load_file / fgets on its own pipe+writer or file with its own byte pattern "
             "(sizes k*16384+-2 up to 204800); the read interposer yields after each read until another thread has read too; the "
-            "same part runs under ThreadSanitizer (stage c14-tsan). load_file(save_file(d)) for sizes 0..300, "
+            "same part runs under ThreadSanitizer (stage c14-tsan). FAULT SEQUENCES: read plans may contain failing calls (-1/EINTR, "
+            "-1/EIO, nothing transferred): read_all(fd) under every plan in {1,2,3,F,EINTR,EIO}^6/^7 x lengths 0..12 on a file (^4/^5 "
+            "on a pipe), a failing call after 0..5 blocks for sizes to 200 KiB, readx/read/preadx/load_file with failing first "
+            "call(s); the same at the fopencookie level for read_all(FILE*) ({..}^5/^6), fgets, freadx and random stream histories; a "
+            "real SIGALRM interval timer (handler without SA_RESTART, 100..1000 us) while read_all(fd)/read_all(fdopen)/fgets/freadx "
+            "block on a staggered pipe. Outcome must be an exception or the complete data. Write side: save_file x 12 sizes x "
+            "interposed write plans (first write {1,n-1,n/2,4096,ENOSPC,EIO,EINTR,F} x second {F,1,ENOSPC,EINTR}), writex/pwritex on "
+            "a registered descriptor, save_file to /dev/full, save_file in a forked child under a real RLIMIT_FSIZE (SIGXFSZ "
+            "ignored) with the cut inside the last 4096-byte block or earlier: a normal return requires file == data. load_file(save_file(d)) for sizes 0..300, "
             "2^k+-2, random to 200 KiB (+5 short-read plans each: equal or throw); list_directory/list_directory_sorted vs created "
             "names (0..700/4000 entries, odd/hidden/255-byte names, files/dirs/symlinks/fifos); unlink(recursive) on random trees "
             "(<=200 nodes, depth<=6) beside sentinel siblings; dirname/basename over every string over {'/','a','.',NUL} up to "
@@ -74,6 +83,13 @@ SPEC = {
         "fd_history:file:read_all:after-reads:ok", "fd_history:pipe:read_all:after-reads:ok", "fd_history:*:readx:*:throw",
         "read_all_fd:concurrent:*:ok", "read_all_file:concurrent:*:ok", "load_file:concurrent:*:ok", "fgets_concat:concurrent:*:ok",
         "tsan:read_all_fd:concurrent:*:ok", "tsan:fgets_concat:concurrent:*:ok",
+        "read_all_fd:file+faults:len1-12:throw", "read_all_fd:pipe+faults:*", "read_all_fd:file+faults:fault-after-n-blocks:*",
+        "readx_fd:file+faults:*", "read_fd:pipe+faults:*", "preadx_fd:file+faults:*", "load_file:faults:*",
+        "read_all_file:cookie+faults:len1-12:*", "read_all_file:cookie+faults:fault-after-n-calls:*",
+        "fgets:cookie+faults:*", "freadx:cookie+faults:*", "stream_history:cookie+faults:read_all:*",
+        "read_all_fd:signal-pipe:*", "read_all_file:signal-pipe:*", "fgets:signal-pipe:*", "freadx:signal-pipe:*",
+        "save_file:write-plan:write-disturbed:throw", "load_save:write-plan:write-undisturbed:ok", "writex:write-plan:*", "pwritex:write-plan:*",
+        "save_file:dev-full:throw", "save_file:rlimit:cut-in-last-4096-block:throw", "save_file:rlimit:cut-earlier:throw", "save_file:rlimit:fits:ok",
         "poll:final-size0:with-readd", "poll:final-size3:*", "poll:close_fd:*:1-closed",
     ],
     "exhaustive": {"quick": False, "thorough": False},
@@ -84,7 +100,10 @@ SPEC = {
     "assumptions": ASSUME_COMMON + [
         "Linux/glibc: --wrap interposes the calls made by the harness and by libphosg.a only; reads issued inside glibc "
         "(stdio on real descriptors) are not limited, which is why stdio-level plans use fopencookie streams",
-        "no EINTR/EIO/EAGAIN injection: plans shorten reads, they never fail them; blocking descriptors only",
+        "injected failures are EINTR and EIO on reads, ENOSPC/EIO/EINTR and short counts on writes (no EAGAIN: blocking "
+        "descriptors only); on descriptor-backed FILE*s glibc's internal read/write cannot be interposed with --wrap, so "
+        "faults there come from the kernel (SIGALRM without SA_RESTART, /dev/full, RLIMIT_FSIZE)",
+        "write plans are applied only to the descriptor number or the file (device/inode) the harness registered",
         "throwing is accepted wherever the statement says 'or throw' (e.g. load_file/readx under a short read); required "
         "coverage classes guarantee the non-throwing outcome was observed for every helper",
         "read(fd,size)/fread(f,size) are single-shot by contract: only 'exactly the bytes that call delivered / a prefix of "
